@@ -166,6 +166,27 @@ def struct_program(rng):
                 return ["L"] + et + [o[0], t], "(%s) %s %s" % (es, o[1], s_)
             et, es = lexpr(rng.randint(1, 3), True)
             return "lin:%s:%s" % (lt, ":".join(et)), "%s = %s;" % (ls, es)
+        if k < 0.70 and k >= 0.66:
+            # stage 10: an expression tree — both operands of an operator may be compound, so that the generator
+            # spills (PHA … STA cctmp ; PLA) or gives up ("Code too complex": then the port must say `outside`)
+            def tree(d, force):
+                if d == 0 or (not force and rng.random() < 0.3):
+                    t, s_, c, n = atom()
+                    return ["A", t], s_, True, (c, n, t)
+                while True:
+                    o = rng.choice(OPS)
+                    lt_, ls_, la, li = tree(d - 1, False)
+                    rt_, rs_, ra_, ri = tree(d - 1, False)
+                    if la and ra_:
+                        if li[0] and ri[0]:
+                            continue        # constant ∘ constant is folded: not a computation
+                        if o[0] == "or" and ((li[2].startswith("r") and ri[1] == 0) or (ri[2].startswith("r") and li[1] == 0)):
+                            continue        # `X | 0`
+                    break
+                return (["B", o[0]] + lt_ + rt_, "%s %s %s" % (ls_ if la else "(%s)" % ls_, o[1], rs_ if ra_ else "(%s)" % rs_),
+                        False, (False, None, ""))
+            et, es, _, _ = tree(rng.randint(2, 3), True)
+            return "expr:%s:%s" % (lt, ":".join(et)), "%s = %s;" % (ls, es)
         if k < 0.66:
             # stage 7: a chain of two to four operators, grouped to the left (parentheses where C's precedence
             # would group otherwise)
@@ -237,6 +258,12 @@ def struct_program(rng):
                 ft, fs = flat()
                 return ["if"] + ct + ["{", ft, "cont", "}"], "if (%s) { %s continue; }" % (cs, fs)
             return ["ife"] + ct + ["cont", "brk"], "if (%s) { continue; } else { break; }" % cs
+        if wide and rng.random() < 0.08:
+            # stage 9: ++ / -- on a 16-bit variable, as a statement
+            d = rng.choice("pq")
+            if rng.random() < 0.5:
+                return ["winc:" + d], rng.choice(["%s++;", "++%s;"]) % d
+            return ["wdec:" + d], rng.choice(["%s--;", "--%s;"]) % d
         if depth >= 3 or k < 0.45:
             t, s_ = flat()
             return [t], s_
@@ -338,12 +365,23 @@ def run(chk):
             chk.count("struct_wide_statements", sum(1 for t in toks if t.startswith("w") and ":" in t and t.split(":")[0] in ("wasg", "wbin", "woas")))
         chk.count("struct_chain_statements", sum(1 for t in toks if t.startswith("chain:")))
         chk.count("struct_linear_statements", sum(1 for t in toks if t.startswith("lin:")))
+        chk.count("struct_wide_incdec", sum(1 for t in toks if t.startswith("winc:") or t.startswith("wdec:")))
         ptoks = toks[1:] if toks and toks[0].startswith("abs=") else toks
         chk.case(key=src, nontrivial=any(t in ("if", "ife", "wh", "do", "for") for t in toks))
         for t in toks:
             if t in ("and", "or", "not", "if", "ife", "wh", "do", "for", "brk", "cont", "ifbrk", "ifcont"):
                 chk.count("struct_" + t)
         chk.count("struct_programs")
+        nexpr = sum(1 for t in toks if t.startswith("expr:"))
+        chk.count("struct_tree_statements", nexpr)
+        if nexpr and ma == "outside":
+            # the port says the generator gives up on one of the trees: the real compiler must say so too
+            if r["status"] == "err" and "too complex" in unhx(r["err"]["msg"]).lower():
+                chk.count("struct_tree_rejected_by_both")
+            else:
+                chk.tie_broken("the port gives up on an expression tree the real generator accepts (or rejects differently): %s" % r["status"],
+                               {"source": src, "tokens": " ".join(toks)})
+            continue
         if r["status"] != "ok":
             chk.tie_broken("program of the declared stage-2 fragment rejected: %s" % r["status"], {"source": src}); continue
         real = "ok " + " ".join(("%s:%s" % (l[1], l[2]) if l[0] == "I" else "L:%s" % l[1]) for l in r["funcs"][-1]["generated"]["lines"] if l[0] in ("I", "L"))
@@ -409,6 +447,43 @@ def run(chk):
                         chk.fail("c01-struct-wrong-value", "compiled code (-O%d) of a stage-2 program ends with %s, the source prescribes %s" % (level, got, want),
                                  {"source": src, "level": level, "initial": vals, "got": got, "expect": want})
                         break
+    # ---- tie: the expression-tree port (stage 10) alone, deeper trees: accepted code text-exact, rejections agree ----
+    def gtree(d):
+        if d == 0 or rng.random() < 0.25:
+            k = rng.random()
+            if k < 0.25:
+                n = rng.choice([0, 1, 3, 7, 127, 128, 255]); return ["A", "c%d" % n], str(n), True
+            if k < 0.4:
+                r_ = rng.choice("XY"); return ["A", "r" + r_], r_, True
+            if k < 0.55:
+                t = rng.choice(["t", "u"]); i_ = rng.choice(["X", "Y", "1", "2"]); return ["A", "e%s@%s" % (t, i_)], "%s[%s]" % (t, i_), True
+            v = rng.choice("abcd"); return ["A", "v" + v], v, True
+        o = rng.choice(OPS)
+        lt_, ls_, la = gtree(d - 1); rt_, rs_, ra_ = gtree(d - 1)
+        return ["B", o[0]] + lt_ + rt_, "%s %s %s" % (ls_ if la else "(%s)" % ls_, o[1], rs_ if ra_ else "(%s)" % rs_), False
+    for i in range(chk.scale(500, 8000)):
+        et, es, isatom = gtree(rng.randint(1, 4))
+        if isatom:
+            continue
+        lvt = rng.choice(["va", "vb", "rX", "rY", "et@1", "et@Y", "eu@X"])
+        lvs = {"va": "a", "vb": "b", "rX": "X", "rY": "Y", "et@1": "t[1]", "et@Y": "t[Y]", "eu@X": "u[X]"}[lvt]
+        src = "unsigned char a, b, c, d;\nunsigned char t[4];\nunsigned char u[4];\nvoid main() {\n  %s = %s;\n}\n" % (lvs, es)
+        ma = m.req("genexpr %s %s" % (lvt, " ".join(et)))
+        if ma == "outside":
+            chk.count("tree_outside_fragment"); continue          # `X | 0`, constant ∘ constant: no computation
+        r = h.compile(src, 0)
+        chk.case(key=src, nontrivial=True)
+        if r["status"] == "ok":
+            real = "ok " + " ".join("%s:%s" % (l[1], l[2]) for l in r["funcs"][-1]["generated"]["lines"] if l[0] == "I")
+        elif r["status"] == "err" and "too complex" in unhx(r["err"]["msg"]).lower():
+            real = "reject"
+        else:
+            real = r["status"]
+        chk.count("tree_" + ma.split(" ")[0])
+        if ma.startswith("ok") and "PHA" in ma:
+            chk.count("tree_with_spill")
+        if real != ma:
+            chk.tie_broken("expression-tree port differs from the real -O0 output", {"source": src, "real": real[:600], "model": ma[:600]})
     # ---- regression exemplars of recorded findings: {exemplar, init, expect} ----
     regress = []
     for c in chk.corpus():
